@@ -35,4 +35,12 @@ if "--core" in sys.argv:
           "threads, process state and argument type/spelling tricks: do NOT use those mechanisms this time.  Still obey "
           "(a)-(d): the change must survive the existing tests and must need a specific (but legitimate, in-range) input "
           "or option combination to show.\n")
+if "--glue" in sys.argv:
+    t += ("\n\nFocus for this round: the GLUE around the core - public entry points and what sits between a caller's "
+          "arguments and the core computation: argument normalisation and defaults, dispatch on argument type or on option "
+          "combinations, keyword forwarding between layers, conversions between representations (tuple / slice / named tuple / "
+          "numpy scalar / object), results assembled from several helper calls, rarely used but documented entry points and "
+          "methods, the second or third step of a multi-step use (derive an object from another one, then use the derived one), "
+          "and pairs of cooperating sites where each edit looks fine alone.  Earlier rounds already used: single-site arithmetic "
+          "slips in the central helpers, serialisation, caches, threads, process state.  Still obey (a)-(d).\n")
 print(t)
